@@ -64,7 +64,18 @@ class SrcErrB(Exception):
   pass
 
 
-ERR_CLASSES = {'RuntimeError': RuntimeError, 'KeyError': KeyError, 'ValueError': ValueError, 'SrcErrA': SrcErrA, 'SrcErrB': SrcErrB, 'OSError': OSError}
+class FalsyErr(Exception):
+  """An exception object whose truth value is False (it has a length, and the length is 0)."""
+
+  def __len__(self):
+    return 0
+
+
+class BaseErr(BaseException):
+  """Not an Exception subclass - like asyncio.CancelledError, pytest's Failed / Skipped, SystemExit."""
+
+
+ERR_CLASSES = {'RuntimeError': RuntimeError, 'KeyError': KeyError, 'ValueError': ValueError, 'SrcErrA': SrcErrA, 'SrcErrB': SrcErrB, 'OSError': OSError, 'FalsyErr': FalsyErr, 'BaseErr': BaseErr}
 
 
 def generate(rs, tier):
@@ -74,7 +85,8 @@ def generate(rs, tier):
     nd = g.choice([2, 3, 3])
     shape = [g.randrange(1, 4) for _ in range(nd)]
     axis = g.sample(range(nd), g.randrange(1, nd + 1))
-    return dict(engine='pipeworld', knobs=dict(kind='helpers', shape=shape, axis=axis, keepdims=g.random() < 0.5, devices=g.choice([1, 2, 4]), classes=g.randrange(2, 6), fill=g.randrange(5)), ops=[])
+    return dict(engine='pipeworld', knobs=dict(kind='helpers', shape=shape, axis=axis, keepdims=g.random() < 0.5, devices=g.choice([1, 2, 4]), classes=g.randrange(2, 6), fill=g.randrange(5),
+                                                    tail=g.choice([[2], [2], [], [0], [3, 0]]), label_dtype=g.choice(['int32', 'int32', 'uint8', 'int8', 'int16']), big_classes=g.choice([None, None, 200, 300])), ops=[])
   kind = 'PrefetchIterator' if g.random() < 0.8 else 'prefetch_to_device'
   n = g.choice([0, 1, 1, 2, 2, 3, 3, 4, 5, 6])
   fail_at = g.randrange(0, n + 1) if g.random() < 0.5 else None
@@ -90,6 +102,9 @@ def generate(rs, tier):
     batch_sizes=[g.randrange(1, 12) for _ in range(n)],
     stay_bias=g.choice([0.0, 0.5, 0.8]),
   )
+  if kind == 'prefetch_to_device' and knobs['fail_cls'] == 'BaseErr':
+    # a generator has no thread to lose: a BaseException simply unwinds through it (nothing is promised to be delivered first)
+    knobs['fail_cls'] = 'SrcErrB'
   if kind == 'prefetch_to_device' and g.random() < 0.35:
     # the source refills ONE host buffer in place for every item (legal: the device transfer copies it)
     knobs['reuse_buffer'] = True
@@ -225,10 +240,14 @@ def execute_helpers(plan):
     real_ldc = jax.local_device_count
     jax.local_device_count = lambda *a, **kw: d
     try:
-      b = np.arange(d * 3 * 2, dtype=np.float32).reshape(d * 3, 2)
-      sh = common_utils.shard({'x': b})['x']
-      if sh.shape != (d, 3, 2) or np.asarray(sh).tobytes() != b.reshape(d, 3, 2).tobytes():
-        raise Violation('shard-mismatch', f'shard with {d} devices')
+      tail = tuple(k.get('tail', [2]))
+      b = np.arange(d * 3 * int(np.prod(tail)), dtype=np.float32).reshape((d * 3,) + tail)
+      try:
+        sh = common_utils.shard({'x': b})['x']
+      except Exception as e:  # noqa: BLE001
+        raise Violation('shard-mismatch', f'shard of shape {b.shape} with {d} devices raised {type(e).__name__}: {str(e)[:160]}')
+      if sh.shape != (d, 3) + tail or np.asarray(sh).tobytes() != b.reshape((d, 3) + tail).tobytes():
+        raise Violation('shard-mismatch', f'shard of shape {b.shape} with {d} devices gives shape {sh.shape}')
     finally:
       jax.local_device_count = real_ldc
     forest = [{'a': np.full((2,), i, np.float32), 'b': np.full((), -i, np.float32)} for i in range(3)]
@@ -239,6 +258,18 @@ def execute_helpers(plan):
     oh = np.asarray(common_utils.onehot(jnp.asarray(labels), k['classes']))
     if oh.shape != (2, 3, k['classes']) or not (oh.argmax(-1) == labels).all() or oh.sum() != 6:
       raise Violation('onehot-mismatch', 'onehot')
+    if k.get('big_classes'):
+      # narrow label dtypes with more classes than the dtype can count; out-of-range / negative labels give all-off rows
+      ldt = np.dtype(k.get('label_dtype', 'int32'))
+      nc = k['big_classes']
+      raw = np.array([0, 3, 43, 44, 127, -100 if ldt.kind == 'i' else 255], dtype=ldt)
+      oh = np.asarray(common_utils.onehot(jnp.asarray(raw), nc))
+      want = np.zeros((len(raw), nc), np.float32)
+      for i, lab in enumerate(raw.tolist()):
+        if 0 <= lab < nc:
+          want[i, lab] = 1.0
+      if oh.shape != want.shape or oh.astype(np.float32).tobytes() != want.tobytes():
+        raise Violation('onehot-mismatch', f'onehot({raw.tolist()} as {ldt}, {nc}): rows sum to {oh.sum(-1).tolist()}, hot classes {[np.nonzero(r)[0].tolist() for r in oh]}')
     rep = {'w': np.stack([np.arange(3.0)] * d)}
     if np.asarray(jax_utils.unreplicate(rep)['w']).tolist() != [0.0, 1.0, 2.0]:
       raise Violation('unreplicate-mismatch', 'unreplicate')
